@@ -18,6 +18,7 @@ import (
 	"strings"
 
 	dcr "github.com/decred/dcrd/dcrec/secp256k1/v4"
+	"github.com/hyperledger/firefly-signer/pkg/ethtypes"
 	"github.com/hyperledger/firefly-signer/pkg/secp256k1"
 	"golang.org/x/crypto/sha3"
 	"verifharness/cv"
@@ -70,23 +71,28 @@ func doRecover(hashing bool, s sig, msg []byte, chain int64) (cls int, addr []by
 		}
 	}()
 	sd := s.data()
+	m := append([]byte{}, msg...) // the implementation gets its own buffer, overwritten after the call
 	var err error
+	var x *ethtypes.Address0xHex
 	if hashing {
-		x, e := sd.Recover(msg, chain)
-		err = e
-		if e == nil {
-			addr = append([]byte{}, x[:]...)
-		}
+		x, err = sd.Recover(m, chain)
 	} else {
-		x, e := sd.RecoverDirect(msg, chain)
-		err = e
-		if e == nil {
-			addr = append([]byte{}, x[:]...)
-		}
+		x, err = sd.RecoverDirect(m, chain)
 	}
-	if err != nil {
+	if !bytes.Equal(m, msg) {
+		noteFail("Recover/RecoverDirect modified the message it was given", sigFields(s, msg, chain))
+	}
+	scribble(m)
+	if sd.V.Cmp(s.V) != 0 || sd.R.Cmp(s.R) != 0 || sd.S.Cmp(s.S) != 0 {
+		f := sigFields(s, msg, chain)
+		f["after_V"], f["after_R"], f["after_S"] = sd.V.String(), sd.R.String(), sd.S.String()
+		noteFail("Recover/RecoverDirect modified the signature it was called on", f)
+	}
+	if err != nil || x == nil {
 		return 1, nil
 	}
+	addr = append([]byte{}, x[:]...)
+	retainAddr(x, sigFields(s, msg, chain))
 	return 0, addr
 }
 
@@ -98,14 +104,20 @@ func doSign(hashing bool, kp *secp256k1.KeyPair, msg []byte) (cls int, s sig) {
 	}()
 	var sd *secp256k1.SignatureData
 	var err error
+	m := append([]byte{}, msg...)
 	if hashing {
-		sd, err = kp.Sign(msg)
+		sd, err = kp.Sign(m)
 	} else {
-		sd, err = kp.SignDirect(msg)
+		sd, err = kp.SignDirect(m)
 	}
+	if !bytes.Equal(m, msg) {
+		noteFail("Sign/SignDirect modified the message it was given", map[string]interface{}{"message": hx(msg)})
+	}
+	scribble(m)
 	if err != nil || sd == nil {
 		return 1, sig{bi(0), bi(0), bi(0)}
 	}
+	retainSig(sd, kp, msg, hashing)
 	return 0, sig{cp(sd.V), cp(sd.R), cp(sd.S)}
 }
 
@@ -115,7 +127,13 @@ func doCompact(s sig) (cls int, out []byte) {
 			cls, out = 2, nil
 		}
 	}()
-	return 0, s.data().CompactRSV()
+	sd := s.data()
+	out = sd.CompactRSV()
+	if sd.V.Cmp(s.V) != 0 || sd.R.Cmp(s.R) != 0 || sd.S.Cmp(s.S) != 0 {
+		noteFail("CompactRSV modified the signature it was called on", sigFields(s, nil, 0))
+	}
+	retainBytes(out, "CompactRSV")
+	return 0, append([]byte{}, out...)
 }
 
 func doDecode(in []byte) (cls int, s sig) {
@@ -124,7 +142,12 @@ func doDecode(in []byte) (cls int, s sig) {
 			cls = 2
 		}
 	}()
-	sd, err := secp256k1.DecodeCompactRSV(context.Background(), in)
+	buf := append([]byte{}, in...)
+	sd, err := secp256k1.DecodeCompactRSV(context.Background(), buf)
+	if !bytes.Equal(buf, in) {
+		noteFail("DecodeCompactRSV modified its input", map[string]interface{}{"input": hx(in)})
+	}
+	scribble(buf) // the result must not share the input buffer
 	if err != nil {
 		return 1, sig{bi(0), bi(0), bi(0)}
 	}
@@ -177,7 +200,10 @@ func (g *gen) sample(d desc) {
 func clsName(c int) string { return []string{"ok", "err", "panic"}[c] }
 
 func (g *gen) addKey(keyBytes []byte, what string) *secp256k1.KeyPair {
-	kp := secp256k1.KeyPairFromBytes(keyBytes)
+	in := append([]byte{}, keyBytes...)
+	kp := secp256k1.KeyPairFromBytes(in)
+	scribble(in) // the key pair must not share the caller's buffer
+	retainKP(kp, keyBytes)
 	d := desc{Kind: "key", PrivKey: hx(keyBytes), What: what, Impl: kp.Address.String()}
 	g.w.Add(fmt.Sprintf("CKey %s %s %s %s", cv.CoqBytes(keyBytes), cv.CoqBytes(kp.Address[:]), cv.CoqBytes(kp.PublicKeyBytes()), cv.CoqBytes(kp.PrivateKeyBytes())), d)
 	g.st.Hit("key/" + what)
@@ -499,6 +525,7 @@ func main() {
 			fmt.Println("implementation: sweep of V in", c.Lo, "..", c.Hi, "re-run;", st.Distribution)
 		}
 		g.w.Flush()
+		st.ImplFailures = append(st.ImplFailures, failures...)
 		st.Write(filepath.Join(*out, "stats_C05.json"))
 		return
 	}
@@ -537,6 +564,21 @@ func main() {
 	// property's quantifier: a change of behaviour there is not a violation, so they are not generated
 	// (the model covers them; they were compared once while the model was written).
 	outside := []key{}
+	// Go-side sweep of the address derivation over many keys (independent point arithmetic + keccak); it also
+	// finds keys whose public key has a leading zero byte in X / in Y, which go through the model as well
+	sweepCount := 3000
+	if thorough {
+		sweepCount = 40000
+	}
+	xlz, ylz := keySweep(g, sweepCount)
+	if xlz == nil {
+		xlz = be32(bi(1417)) // X of 1417*G starts with a zero byte
+	}
+	pubLZ := []key{{xlz, "pub-X-leading-zero"}}
+	if ylz != nil {
+		pubLZ = append(pubLZ, key{ylz, "pub-Y-leading-zero"})
+	}
+	keys = append(keys, pubLZ...)
 	kps := map[string]*secp256k1.KeyPair{}
 	for _, k := range keys {
 		kps[hx(k.b)] = g.addKey(k.b, k.what)
@@ -573,6 +615,9 @@ func main() {
 	}
 	for i, dg := range digests {
 		signIt(false, keys[12+i%nrand], dg, fmt.Sprintf("direct/boundary-digest-%d", i))
+	}
+	for i, k := range pubLZ {
+		signIt(i%2 == 1, k, r.Bytes(32), "key="+k.what)
 	}
 	for i := 0; i < 3*scale*scale; i++ {
 		signIt(false, keys[r.Intn(len(keys))], r.Bytes(32), "direct/random")
@@ -848,6 +893,31 @@ func main() {
 				}
 			}
 		}
+	}
+
+	// ---- round 3: state across calls, aliasing, concurrency, constructors (Go-side oracles, stateful.go) ----
+	{
+		var ss []seqSigned
+		for i, sg := range sigs {
+			if !inQuant(sg) {
+				continue
+			}
+			x := seqSigned{sg.kp, sg.msg, sg.hashing, sg.s}
+			ss = append(ss, x)
+			sequence(g, x, i)
+		}
+		rounds := 12
+		if thorough {
+			rounds = 100
+		}
+		concurrent(g, ss, rounds)
+		ngen := 16
+		if thorough {
+			ngen = 200
+		}
+		constructors(g, ngen)
+		checkRetained(g)
+		st.ImplFailures = append(st.ImplFailures, failures...)
 	}
 
 	if err := g.w.Flush(); err != nil {
